@@ -19,7 +19,7 @@ RULE = ("case = one generated project with 2-6 source files x mode (check|edit);
         "sig_before/sig_after with signo 2 and 15 at operation k (quick: sampled, thorough: every k from the first source-dir "
         "operation on, plus start-up boundaries), plus signal+I/O-fault and two-signal plans. Non-trivial = signal delivered; "
         "distinct = (world, mode, k, action, signo).")
-PROBES = ["check_twin_passes", "signal_in_startup", "signal_in_discovery", "signal_in_pass1", "signal_in_pass2", "signal_after_last_file",
+PROBES = ["unreadable_files_in_tree", "check_twin_passes", "signal_in_startup", "signal_in_discovery", "signal_in_pass1", "signal_in_pass2", "signal_after_last_file",
           "signal_plus_fault", "two_signals"]
 ASSUMPTIONS = ["'has begun scanning the sources' = first operation on the source directory in the trace",
                "one more source file may be started after the signal (the stop flag is polled between files)"]
@@ -36,6 +36,12 @@ def gen(rng):
     wm = world.gen_world_model(rng, nfiles=rng.randrange(2, 7), sizes=["tiny", "tiny", "tiny", "k8", "k64"],
                                p_have=1.0 if complete else 0.35, id_hi=400, max_stmts=3, layout_p=0.0 if complete else 0.1,
                                min_missing=0 if complete else rng.choice([0, 1, 1, 2]))
+    if rng.random() < 0.2:
+        # in-scope files that cannot be read as text (they are reported and skipped): the stop request must be honoured
+        # between them just as between any other files
+        for j in range(rng.randrange(1, 4)):
+            wm["extra"]["proj/src/%s_bin%d.rs" % (rng.choice(["a", "m", "z"]), j)] = {
+                "t": "f", "mode": 0o644, "data": b"fn x() { info!(\"not text\"); }\n\xff\xfe\x80 binary tail\n"}
     if not check and world.cfg_uses_lock(wm["cfg"]) and rng.random() < 0.06:
         wm["lock"] = core.lock_text(0xFFFFFFFF - rng.randrange(0, 3))   # the ID range runs out during the run
     knobs = {"threads": rng.randrange(1, 5), "config_arg": rng.choice(["rel", "abs"])}
@@ -123,7 +129,7 @@ def evaluate(wm, knobs, plan, check, ctx, twin=None):
             if ev[1] == "SIGNAL":
                 seen_sig = True
                 continue
-            if seen_sig and ev[1] == "OPEN_R" and ev[2] in wm["files"] and ev[2] not in opened:
+            if seen_sig and ev[1] == "OPEN_R" and (ev[2] in wm["files"] or ev[2] in wm["extra"]) and ev[2] not in opened:
                 opened.append(ev[2])
         if after_k0 and len(opened) > 1:
             V("kept-going-after-signal", "%d further source files were started after the signal: %s" % (len(opened), opened[:4]))
@@ -185,6 +191,8 @@ def run_case(rng, idx, tier, ctx):
     phm = scen.phases(ops)
     if check and tres.status == 0:
         ctx.probes["check_twin_passes"] += 1
+    if wm["extra"]:
+        ctx.probes["unreadable_files_in_tree"] += 1
     k0 = first_source_op(ops) or 1
     thorough = tier == "thorough"
     weights = dict(common.HOT)
